@@ -61,15 +61,17 @@ theorem C05_skip_tag (f : FDecl) (rest : Tree) (h : f.tag = .skip) : walkTop (.f
 /-- Go's promotion rule in the field collector: the entry kept for a name is one of the visited fields of
     that name (same path, type, depth), no visited field of that name is shallower, names are collected
     once — whatever the order in which embedded structs and redeclared names are visited (a deeper
-    field visited first is replaced by a shallower one visited later) -/
+    field visited first is replaced by a shallower one visited later). The name of a top-level `map:"-"`
+    field is not collected at all: the field is left out and hides its promoted namesakes, as it does in Go -/
 theorem C05_flatten_shallowest (t : Tree) :
     ((flatten t).map (·.name)).Nodup ∧
-    (∀ f ∈ flatten t, ∃ g ∈ walkTop t, g.name = f.name ∧ g.path = f.path ∧ g.ty = f.ty ∧ g.depth = f.depth) ∧
+    (∀ f ∈ flatten t, f.name ∉ skippedTop t ∧
+      ∃ g ∈ walkTop t, g.name = f.name ∧ g.path = f.path ∧ g.ty = f.ty ∧ g.depth = f.depth) ∧
     (∀ f ∈ flatten t, ∀ g ∈ walkTop t, g.name = f.name → f.depth ≤ g.depth) ∧
-    (∀ g ∈ walkTop t, ∃ f ∈ flatten t, f.name = g.name) :=
+    (∀ g ∈ walkTop t, g.name ∉ skippedTop t → ∃ f ∈ flatten t, f.name = g.name) :=
   let h := flatten_shallowest t
-  ⟨h.nodup, fun f hf => let ⟨g, hg, e⟩ := h.fromSeen f hf; ⟨g, hg, e.1.symm, e.2.1.symm, e.2.2.1.symm, e.2.2.2.symm⟩,
-   h.minimal, h.covers⟩
+  ⟨h.1, fun f hf => let ⟨hn, g, hg, e⟩ := h.2.1 f hf; ⟨hn, g, hg, e.1.symm, e.2.1.symm, e.2.2.1.symm, e.2.2.2.symm⟩,
+   h.2.2.1, h.2.2.2⟩
 
 /-- Record{*Base}; Base{*Audit; ID}; Audit{ID; Label}: the deeper `ID` is visited first, the collected one is Base.ID -/
 example : ((flatten (.embed "Base" true
@@ -128,6 +130,15 @@ theorem C05_pairs (inp : Input) (hs : inp.srcNew = false) (hd : inp.destNew = fa
   have hst := plan_plain_st inp hs hd
   have hto := toC_char inp.conv inp.fns _ hU inp.manualW inp.manualR
   have hfrom := fromC_char inp.conv inp.fns _ hU inp.manualW inp.manualR
+  -- plain sides have no setter pseudo-fields: the reading-side guard of the claim sites is vacuous
+  have hsrc : ∀ f ∈ (plan inp).srcFields, f.isSet = false := by
+    intro f hf
+    have : (plan inp).srcFields = sideFields inp.src false := by simp [plan, hs]
+    exact (sideFields_plain_flags inp.src f (this ▸ hf)).2
+  have hdst : ∀ f ∈ (plan inp).destFields, f.isSet = false := by
+    intro f hf
+    have : (plan inp).destFields = sideFields inp.dest false := by simp [plan, hd]
+    exact (sideFields_plain_flags inp.dest f (this ▸ hf)).2
   constructor
   · have key : c ∈ (plan inp).toStmts ↔ c ∈ (plan inp).st.toC := by
       apply stmts_eq_claims
@@ -148,9 +159,10 @@ theorem C05_pairs (inp : Input) (hs : inp.srcNew = false) (hd : inp.destNew = fa
     constructor
     · rintro ⟨p, hp, hw, hg, s, hs', rfl⟩
       have := (mem_pairs _ _ _ _ _).mp hp
+      rw [gd_plain (hsrc _ this.1)] at hs'
       exact ⟨this.1, this.2.1, this.2.2, hg, hw, hs'⟩
     · rintro ⟨h1, h2, h3, h4, hw, h5⟩
-      exact ⟨(c.rd, c.wr), (mem_pairs _ _ _ _ _).mpr ⟨h1, h2, h3⟩, hw, h4, c.strat, h5, rfl⟩
+      exact ⟨(c.rd, c.wr), (mem_pairs _ _ _ _ _).mpr ⟨h1, h2, h3⟩, hw, h4, c.strat, by rw [gd_plain (hsrc _ h1)]; exact h5, rfl⟩
   · have key : c ∈ (plan inp).fromStmts ↔ c ∈ (plan inp).st.fromC := by
       apply stmts_eq_claims
       · intro c1 h1 c2 h2 e
@@ -170,20 +182,20 @@ theorem C05_pairs (inp : Input) (hs : inp.srcNew = false) (hd : inp.destNew = fa
     constructor
     · rintro ⟨p, hp, hw, hg, s, hs', rfl⟩
       have := (mem_pairs _ _ _ _ _).mp hp
+      rw [gd_plain (hdst _ this.2.1)] at hs'
       exact ⟨this.1, this.2.1, this.2.2, hg, hw, hs'⟩
     · rintro ⟨h1, h2, h3, h4, hw, h5⟩
-      exact ⟨(c.wr, c.rd), (mem_pairs _ _ _ _ _).mpr ⟨h1, h2, h3⟩, hw, h4, c.strat, h5, rfl⟩
+      exact ⟨(c.wr, c.rd), (mem_pairs _ _ _ _ _).mpr ⟨h1, h2, h3⟩, hw, h4, c.strat, by rw [gd_plain (hdst _ h2)]; exact h5, rfl⟩
 
 /-- the strategy the loop computes is the one the property prescribes: the user's mapper method when
     one with exactly those types exists, else recursive mapping for struct types of the two packages
     (value / pointer / slice), else assignment for identical types, else a conversion unless it is
-    string<->fixed-width integer — provided the named types of the two packages that meet here are
-    structs (`StructOnly`; the complement is finding region F_namedScalarSub) -/
-theorem C05_strategy (inp : Input) (rdPkg wrPkg : Pkg) (a b : Ty)
-    (h1 : StructOnly rdPkg wrPkg a.strip.2 b.strip.2)
-    (h2 : ∀ e1 e2, a = .slice e1 → b = .slice e2 → StructOnly rdPkg wrPkg e1.strip.2 e2.strip.2) :
+    string<->fixed-width integer — for ALL types: the recursive-mapping test of the generator accepts
+    struct types only, so named scalars of the two packages fall through to the conversion (was finding
+    region F_namedScalarSub) -/
+theorem C05_strategy (inp : Input) (rdPkg wrPkg : Pkg) (a b : Ty) :
     pairStrat inp.conv (indexed inp.fns) rdPkg wrPkg a b = specStrategy inp rdPkg wrPkg a b :=
-  pairStrat_eq_spec inp rdPkg wrPkg a b h1 h2
+  pairStrat_eq_spec inp rdPkg wrPkg a b
 
 /-- round trip, statement level: with unique name matching, a pair of IDENTICAL type that ToX copies
     by assignment is copied back by FromX by assignment between the same two fields — so on these
@@ -272,15 +284,16 @@ example : smartMatchL "xID".toList "xId".toList = false := by decide   -- Pascal
 
 /-- with -i the relation is exactly case-insensitive equality of the (tag-substituted) names -/
 theorem C05_match_i (tm : List (String × String)) (f1 f2 : Field) (hg : f1.isGet = false) (hs : f1.isSet = false) :
-    canNameMatch tm true f1 f2 = equalFold ((mapGet tm f1.matchingName).getD f1.matchingName) f2.matchingName := by
+    canNameMatch tm true f1 f2 = equalFold ((mapGet tm (pascalS f1.matchingName)).getD f1.matchingName) f2.matchingName := by
   simp [canNameMatch, hg, hs]
 
-/-- a `map:"X"` tag replaces the source name before matching (keyed by the Pascal-cased field name) -/
-theorem C05_match_tag (name tag : String) (ty : Ty) (f2 : Field) (ic : Bool) (h : pascalS name = name) :
+/-- a `map:"X"` tag replaces the source name before matching — whatever the spelling of the field name
+    (stored and looked up under the Pascal-cased name; was finding region F_tagKey for names such as `User_name`) -/
+theorem C05_match_tag (name tag : String) (ty : Ty) (f2 : Field) (ic : Bool) :
     canNameMatch (tagMap (.field { name := name, ty := ty, tag := .name tag } .nil)) ic
       { name := name, path := [name], ty := ty } f2 =
     (if ic then equalFold (pascalS tag) f2.matchingName else smartMatch (pascalS tag) f2.matchingName) := by
-  simp [canNameMatch, tagMap, mapGet, Field.matchingName, h]
+  simp [canNameMatch, tagMap, mapGet, Field.matchingName]
 
 /-! ### non-vacuity: concrete inputs meeting the hypotheses -/
 
@@ -302,9 +315,6 @@ example : ((plan exWF).toStmts.map (fun c => (c.rd.name, c.wr.name, c.strat))) =
 example : ((plan exWF).fromStmts.map (fun c => (c.rd.name, c.wr.name, c.strat))) =
     [("Id", "ID", .conv), ("Name", "Name", .assign), ("Sub", "Sub", .sub false true)] := by decide
 example : obs05 exWF = spec05 exWF := by decide
-example : StructOnly .src .dest (Ty.ptr (.named .src "Sub" (.struct "N:int"))).strip.2
-    (Ty.named .dest "Sub" (.struct "N:int,Other:string")).strip.2 := by
-  intro _ _; decide
 
 /-! ### finding regions: the unchanged code violates the property there -/
 
@@ -314,46 +324,70 @@ def wMulti : Input :=
     dest := .field { name := "ID", ty := .basic "int" } (.field { name := "Id", ty := .basic "int" } .nil) }
 theorem C05_F_multiMatch_witness : region05 wMulti = "F_multiMatch" ∧ obs05 wMulti ≠ spec05 wMulti := by decide
 
-/-- named scalar types of the two packages are sent to ToX/FromX, which they do not have -/
+/-! ### repaired: inputs of former finding regions now satisfy the property (the model follows the repaired code) -/
+
+/-- named scalar types of the two packages are converted (was F_namedScalarSub: sent to ToX/FromX, which they do not have) -/
 def wNamedScalar : Input :=
   let k1 := Ty.named .src "Kind" (.basic "int")
   let k2 := Ty.named .dest "Kind" (.basic "int")
   { src := .field { name := "K", ty := k1 } .nil, dest := .field { name := "K", ty := k2 } .nil,
     conv := [(k1, k2), (k2, k1)] }
-theorem C05_F_namedScalarSub_witness : region05 wNamedScalar = "F_namedScalarSub" ∧ obs05 wNamedScalar ≠ spec05 wNamedScalar := by decide
+theorem C05_namedScalarSub_fixed :
+    region05 wNamedScalar = "WF" ∧ obs05 wNamedScalar = spec05 wNamedScalar ∧
+    (plan wNamedScalar).toStmts.map (·.strat) = [.conv] := by decide
 
-/-- `User_name` with `map:"Title"`: stored under `UserName`, looked up under `User_name` -/
+/-- `User_name` with `map:"Title"` is matched under `Title` (was F_tagKey: stored under `UserName`, looked up under `User_name`) -/
 def wTagKey : Input :=
   { src := .field { name := "User_name", ty := .basic "string", tag := .name "Title" } .nil,
     dest := .field { name := "Title", ty := .basic "string" } .nil }
-theorem C05_F_tagKey_witness : region05 wTagKey = "F_tagKey" ∧ obs05 wTagKey ≠ spec05 wTagKey := by decide
+theorem C05_tagKey_fixed : region05 wTagKey = "WF" ∧ obs05 wTagKey = spec05 wTagKey ∧ (plan wTagKey).toStmts.length = 1 := by decide
 
-/-- `map:"-"` on a promoted field is ignored -/
+/-- `A, B int \`map:"X"\``: both names are keyed — two sources for `X`, so the text does not single one out (F_multiMatch), but
+    neither is matched under its own name any more -/
+def wTagJoined : Input :=
+  { src := .field { name := "A", ty := .basic "int", tag := .name "X" } (.field { name := "B", ty := .basic "int", tag := .name "X", joined := true } .nil),
+    dest := .field { name := "B", ty := .basic "int" } .nil }
+theorem C05_tagJoined_fixed : obs05 wTagJoined = spec05 wTagJoined ∧ (plan wTagJoined).toStmts = [] := by decide
+
+/-- `map:"-"` on a promoted field leaves it out (was F_nestedTag: ignored) -/
 def wNestedTag : Input :=
   { src := .embed "Base" false (.field { name := "Name", ty := .basic "string", tag := .skip } .nil) .nil,
     dest := .field { name := "Name", ty := .basic "string" } .nil }
-theorem C05_F_nestedTag_witness : region05 wNestedTag = "F_nestedTag" ∧ obs05 wNestedTag ≠ spec05 wNestedTag := by decide
+theorem C05_nestedTag_fixed : region05 wNestedTag = "WF" ∧ obs05 wNestedTag = spec05 wNestedTag ∧ (plan wNestedTag).toStmts = [] := by decide
 
-/-- a top-level `map:"-"` field with a promoted namesake: the generator maps the promoted one by
-    name, Go resolves the name to the tagged one -/
-def wSkipShadow : Input :=
+/-- a `map:"Name"` tag on a promoted field renames it -/
+def wNestedName : Input :=
+  { src := .embed "Base" false (.field { name := "Caption", ty := .basic "string", tag := .name "Title" } .nil) .nil,
+    dest := .field { name := "Title", ty := .basic "string" } .nil }
+theorem C05_nestedName_fixed : region05 wNestedName = "WF" ∧ obs05 wNestedName = spec05 wNestedName ∧ (plan wNestedName).toStmts.length = 1 := by decide
+
+/-- a top-level `map:"-"` field hides its promoted namesake from the generator as it does from Go (was F_skipShadow) -/
+def wSkipShadowTop : Input :=
   { src := .field { name := "Name", ty := .basic "int", tag := .skip }
             (.embed "Base" false (.field { name := "Name", ty := .basic "int" } .nil) .nil),
     dest := .field { name := "Name", ty := .basic "int" } .nil }
+theorem C05_skipShadow_fixed : region05 wSkipShadowTop = "WF" ∧ obs05 wSkipShadowTop = spec05 wSkipShadowTop ∧ (plan wSkipShadowTop).toStmts = [] := by decide
+
+/-- what remains of F_skipShadow: a PROMOTED `map:"-"` field with a deeper namesake — the generator maps the deeper
+    one by name, Go resolves the name to the tagged one -/
+def wSkipShadow : Input :=
+  { src := .embed "Base" false (.field { name := "Name", ty := .basic "int", tag := .skip }
+            (.embed "Inner" false (.field { name := "Name", ty := .basic "int" } .nil) .nil)) .nil,
+    dest := .field { name := "Name", ty := .basic "int" } .nil }
 theorem C05_F_skipShadow_witness : region05 wSkipShadow = "F_skipShadow" ∧ obs05 wSkipShadow ≠ spec05 wSkipShadow := by decide
 
-/-- pointer conversion printed as `*dest.Kind(x)` -/
+/-- a pointer conversion compiles: `(*dest.Kind)(x)` (was F_ptrConv: printed as `*dest.Kind(x)`) -/
 def wPtrConv : Input :=
   let a := Ty.ptr (.basic "int")
   let b := Ty.ptr (.named .dest "Kind" (.basic "int"))
   { src := .field { name := "P", ty := a } .nil, dest := .field { name := "P", ty := b } .nil, conv := [(a, b), (b, a)] }
-theorem C05_F_ptrConv_witness : region05 wPtrConv = "F_ptrConv" ∧ obs05 wPtrConv ≠ spec05 wPtrConv := by decide
+theorem C05_ptrConv_fixed : region05 wPtrConv = "WF" ∧ obs05 wPtrConv = spec05 wPtrConv ∧ modelCompiles wPtrConv = true := by decide
 
-/-- FromX converts into a named type of the source package as `src.Label(x)` inside package src -/
+/-- FromX converts into a named type of the source package as `Label(x)` (was F_convSrcNamed: `src.Label(x)` inside package src) -/
 def wConvSrc : Input :=
   let a := Ty.named .src "Label" (.basic "string")
   { src := .field { name := "L", ty := a } .nil, dest := .field { name := "L", ty := .basic "string" } .nil,
     conv := [(a, .basic "string"), (.basic "string", a)] }
-theorem C05_F_convSrcNamed_witness : region05 wConvSrc = "F_convSrcNamed" ∧ obs05 wConvSrc ≠ spec05 wConvSrc := by decide
+theorem C05_convSrcNamed_fixed : region05 wConvSrc = "WF" ∧ obs05 wConvSrc = spec05 wConvSrc ∧ modelCompiles wConvSrc = true := by decide
 
 end ShootVerif.Mapper
